@@ -156,8 +156,8 @@ func c16Gen(t *rapid.T) c16Case {
 		// targets are offsets from the player's current server at execution time (0 = the current server)
 		st := c16Step{
 			T1: rapid.IntRange(1, nb-1).Draw(t, "t1"), API1: rapid.IntRange(0, 1).Draw(t, "api1"),
-			T2: rapid.IntRange(0, nb-1).Draw(t, "t2"), API2: rapid.SampledFrom([]int{0, 1, 1, 1}).Draw(t, "api2"),
-			T3: rapid.IntRange(0, nb-1).Draw(t, "t3"), API3: rapid.SampledFrom([]int{0, 1, 1, 1}).Draw(t, "api3"),
+			T2: rapid.IntRange(0, nb-1).Draw(t, "t2"), API2: rapid.SampledFrom([]int{0, 1, 1, 1, 1, 1, 1, 1}).Draw(t, "api2"),
+			T3: rapid.IntRange(0, nb-1).Draw(t, "t3"), API3: rapid.SampledFrom([]int{0, 1, 1, 1, 1, 1, 1, 1}).Draw(t, "api3"),
 		}
 		if rapid.IntRange(0, 9).Draw(t, "to_current") == 0 {
 			st.T1 = 0
@@ -251,6 +251,7 @@ func (s *c16Sink) WithName(name string) logr.LogSink      { s.hook(name); return
 func (x *c16Exec) label(l string) { x.labels[l] = true }
 
 func (x *c16Exec) snapshot() c16Snap {
+	inFlight, cur := x.player.connectionInFlight(), x.player.connectedServer()
 	x.rig.mu.Lock()
 	defer x.rig.mu.Unlock()
 	n := 0
@@ -259,7 +260,7 @@ func (x *c16Exec) snapshot() c16Snap {
 			n++
 		}
 	}
-	return c16Snap{inFlight: x.player.connectionInFlight(), cur: x.player.connectedServer(), dials: len(x.rig.dials), events: n}
+	return c16Snap{inFlight: inFlight, cur: cur, dials: len(x.rig.dials), events: n}
 }
 
 func (x *c16Exec) issue(t, api int, sc *c15Script) *c16Req {
@@ -444,6 +445,16 @@ func (x *c16Exec) describe() string {
 	cl := r.client
 	fmt.Fprintf(&sb, "client[kicked=%v %q closed=%v joins=%d startUpdates=%d cfgFinished=%d handleDone=%v] ", cl.kicked, c15Printable(cl.kickPayload), cl.rdDone, cl.joins, cl.startUpdates, cl.cfgFinished, r.handleDone)
 	return sb.String() + "events=" + strings.Join(ev, ",")
+}
+
+// settle waits until the transport is quiescent (the proxy's read loops are
+// back in Read and every pipe is drained), so that snapshots are taken and
+// further requests are issued at a stable point of the pending attempt.
+func (x *c16Exec) settle() {
+	r := x.rig
+	if !r.wait(c15Watchdog, func() bool { return r.quietLocked() || len(r.harnessErrs) > 0 }) {
+		x.inconclusive("settle-watchdog")
+	}
 }
 
 // checkNoSideEffects: a request that must not start an attempt left the
@@ -667,6 +678,7 @@ func (x *c16Exec) stepOverlap(st c16Step) {
 	// q1 is parked with an attempt in flight.
 	x.nt = true
 	x.label("overlap-hold-" + sc.HoldAt)
+	x.settle()
 	mid := x.snapshot()
 	if mid.inFlight == nil {
 		x.fail("inflight-slot:empty-during-attempt", "request %s is parked at %s of %s but the in-flight slot is empty; %s", q1.id, sc.HoldAt, q1.target, x.describe())
@@ -871,6 +883,7 @@ func (x *c16Exec) stepPrehold(st c16Step) {
 	if x.isReturned(qs[first]) {
 		x.fail("status:prehold-first", "request %s to %s returned %q instead of reaching the backend; %s", qs[first].id, qs[first].target, qs[first].status, x.describe())
 	}
+	x.settle()
 	mid := x.snapshot()
 	x.releasePre(idx[second])
 	x.waitReq(qs[second], true)
@@ -894,7 +907,10 @@ func (x *c16Exec) stepWindow(st c16Step) {
 		for i, q := range qs {
 			if idx[i] == -1 {
 				x.judge("window-early", q, x.predict(q.target, c15Script{}, ""), before)
-			} else {
+			}
+		}
+		for i, q := range qs {
+			if idx[i] != -1 {
 				x.releasePre(idx[i])
 				x.waitReq(q, true)
 				x.release(q)
@@ -946,6 +962,7 @@ func (x *c16Exec) stepWindow(st c16Step) {
 			winner = q
 		}
 	}
+	x.settle()
 	x.expectNoop("window-loser", loser, "inprogress")
 	if x.dialedLocked2(loser) {
 		x.fail("inflight:second-attempt-started", "request %s returned %q but had dialed its backend; %s", loser.id, loser.status, x.describe())
